@@ -40,7 +40,7 @@ def generate(seed, tier):
     for i in range(NCASES[tier]):
         cs = K.harness_seed(seed, ID, i)
         rng = random.Random(cs)
-        profile = rng.choice(["discrete", "discrete", "mixed", "nested", "guarded", "linear", "linear", "multiassign", "delay", "counter"])
+        profile = rng.choice(["discrete", "discrete", "mixed", "nested", "guarded", "linear", "linear", "multiassign", "delay", "counter", "abstract"])
         prog, feats, meta = G.generate(cs, profile)
         params, inits = G.instantiate_params(rng, meta, prog)
         pv = program_variables(prog)
@@ -120,6 +120,10 @@ def run_case(case, tier):
             except Exception as e:
                 res["refusals"].append(f"[{label}] " + P.refusal_key(e))
                 continue
+            av = K.abstraction_values(program, prog, params)
+            if av is None:
+                continue
+            values.update(av)
             for gi, (g, ref) in enumerate(zip(goals, table)):
                 try:
                     cf, is_exact, recs = P.closed_form(program, rb, g, **solver_kw)
